@@ -1,0 +1,68 @@
+//go:build !verif
+
+/*
+ * Yield/observation points used by the /verif harness. With the verif build tag
+ * off they are empty functions that the compiler removes.
+ */
+
+package ristretto
+
+const (
+	// client side (cache.go)
+	vpSetAfterUpdate = 1  // SetWithTTL: after storedItems.Update, before onExit(prev)
+	vpSetBeforeSend  = 2  // SetWithTTL: before the non-blocking send
+	vpSetSent        = 3  // SetWithTTL: send succeeded
+	vpSetDropped     = 4  // SetWithTTL: buffer full
+	vpDelAfterStore  = 5  // Del: after storedItems.Del, before onExit(prev)
+	vpDelBeforeSend  = 6  // Del: before the blocking send
+	vpDelSent        = 7  // Del: after the blocking send
+	vpWaitBeforeSend = 8  // Wait: before the blocking send of the marker
+	vpWaitSent       = 9  // Wait: marker sent, before <-wait
+	vpWaitDone       = 10 // Wait: marker closed
+	vpGetBeforeStore = 11 // Get: after the ring push, before storedItems.Get
+	vpGetAfterStore  = 12 // Get: after storedItems.Get, before the metric
+	vpClearStopSent  = 13 // Clear: after c.stop <-
+	vpClearDone      = 14 // Clear: after <-c.done
+	vpClearDrainItem = 15 // Clear: one item taken from setBuf (observe: flag, key)
+	vpClearDrained   = 16 // Clear: drain loop finished
+	vpClearPolicy    = 17 // Clear: after cachePolicy.Clear()
+	vpClearStore     = 18 // Clear: after storedItems.Clear
+	vpClearMetrics   = 19 // Clear: after Metrics.Clear, before the restart
+	vpCloseCleared   = 20 // Close: after Clear()
+	vpCloseStopSent  = 21 // Close: after c.stop <-
+	vpCloseDone      = 22 // Close: after <-c.done
+	vpLockedGetRead  = 23 // lockedMap.get: after RUnlock, before the checks
+	// applier (cache.go processItems)
+	vpAppItem        = 30 // select: item received (observe: flag, key)
+	vpAppMarker      = 31 // marker closed
+	vpAppCosted      = 32 // cost computed (observe: cost)
+	vpAppAdded       = 33 // after cachePolicy.Add (observe: added, #victims)
+	vpAppStored      = 34 // after storedItems.Set / onReject
+	vpAppVictimDel   = 35 // before a victim's storedItems.Del (observe: key)
+	vpAppVictimEvict = 36 // after a victim's storedItems.Del, before onEvict
+	vpAppUpdated     = 37 // after cachePolicy.Update
+	vpAppTombPolicy  = 38 // after cachePolicy.Del of a tombstone
+	vpAppTombStore   = 39 // after storedItems.Del of a tombstone, before onExit
+	vpAppItemDone    = 40 // item fully processed
+	vpAppTick        = 41 // select: ticker fired
+	vpAppTickDone    = 42 // Cleanup returned
+	vpAppStop        = 43 // select: stop received
+	vpAppDoneSent    = 44 // done sent, goroutine returns
+	// sweep (ttl.go cleanup)
+	vpSweepGrabbed   = 50 // after the bucket grab (observe: lastCleaned, current)
+	vpSweepKey       = 51 // next key of a grabbed bucket (observe: key, conflict)
+	vpSweepChecked   = 52 // after store.Expiration + the After test passed
+	vpSweepPolicyDel = 53 // after policy.Del
+	vpSweepStoreDel  = 54 // after store.Del, before onEvict
+	// policy (policy.go)
+	vpPolSample     = 60 // fillSample appended (observe: key, cost)
+	vpPolIncHits    = 61 // Add: incoming estimate (observe: key, hits)
+	vpPolSampleHits = 62 // Add: estimate of a sample entry (observe: key, hits)
+	vpPolVictim     = 63 // Add: victim chosen (observe: key, cost)
+	vpPolPushRecv   = 64 // policy goroutine: batch received, before Lock (observe: len)
+	vpPolPushed     = 65 // policy goroutine: batch applied
+	vpPolRingPush   = 66 // defaultPolicy.Push: observe kept(1)/dropped(0), len
+)
+
+func verifPoint(id int)                {}
+func verifObserve(id int, a, b uint64) {}
